@@ -100,7 +100,7 @@ def api_defaults():
 IGNORED_CALLS = {"cmm_annotate_mem_acquire", "cmm_annotate_mem_release", "cmm_annotate_group_mem_acquire",
                  "cmm_annotate_group_mem_release", "cmm_annotate_group_mb_acquire", "cmm_annotate_group_mb_release",
                  "cmm_smp_read_barrier_depends",
-                 "cmm_annotate_define"}
+                 "cmm_annotate_define", "dbg_printf"}
 # value-preserving wrappers: branch hints, and the by-value transparent-union casts of wfcqueue.h (`{ ._h = head }`)
 IDENTITY_CALLS = {"caa_likely", "caa_unlikely", "__cds_wfcq_head_cast", "cds_wfcq_head_cast",
                   "__cds_wfcq_head_const_cast", "cds_wfcq_head_const_cast"}
@@ -174,7 +174,7 @@ def find_function(text, name):
     return None
 
 
-TOK = re.compile(r"\s*(0[xX][0-9a-fA-F]+[uUlL]*|\d+[uUlL]*|[A-Za-z_]\w*|->|\+\+|--|<<=|>>=|<<|>>|<=|>=|==|!=|&&|\|\||[-+*/%&|^]=|[-+*/%&|^~!<>=?:;,.(){}\[\]#])")
+TOK = re.compile(r"\s*(\"(?:[^\"\\]|\\.)*\"|'(?:[^'\\]|\\.)'|0[xX][0-9a-fA-F]+[uUlL]*|\d+[uUlL]*|[A-Za-z_]\w*|->|\+\+|--|<<=|>>=|<<|>>|<=|>=|==|!=|&&|\|\||[-+*/%&|^]=|[-+*/%&|^~!<>=?:;,.(){}\[\]#])")
 
 
 def tokenize(s):
@@ -189,6 +189,59 @@ def tokenize(s):
         out.append(m.group(1))
         i = m.end()
     return out
+
+
+def expand_macros(toks, macros):
+    """token-level expansion of the function-like macros in `macros` (name -> (params, body tokens))"""
+    out, i, n = [], 0, 0
+    while i < len(toks):
+        t = toks[i]
+        if t in macros and i + 1 < len(toks) and toks[i + 1] == "(":
+            params, body = macros[t]
+            j, depth, args, cur = i + 2, 1, [], []
+            while depth:
+                x = toks[j]
+                if x == "(":
+                    depth += 1
+                elif x == ")":
+                    depth -= 1
+                    if depth == 0:
+                        break
+                if x == "," and depth == 1:
+                    args.append(cur)
+                    cur = []
+                else:
+                    cur.append(x)
+                j += 1
+            args.append(cur)
+            if len(args) != len(params):
+                raise Unsupported("macro %s arity" % t)
+            sub = []
+            for b in body:
+                if b in params:
+                    sub += ["("] + args[params.index(b)] + [")"]
+                else:
+                    sub.append(b)
+            out += ["("] + expand_macros(sub, macros) + [")"]
+            i = j + 1
+            n += 1
+        else:
+            out.append(t)
+            i += 1
+    return out
+
+
+def file_macros(text, names):
+    out = {}
+    for n in names:
+        m = re.search(r"^[ \t]*#[ \t]*define[ \t]+%s\(([^)]*)\)[ \t]*(.*)$" % re.escape(n), text, re.M)
+        if m:
+            out[n] = ([x.strip() for x in m.group(1).split(",")], tokenize(m.group(2)))
+    return out
+
+
+# function-like macros expanded from their definition in the file of the function being translated
+EXPAND = ["DQ_IS_FCT_BIT", "DQ_SET_FCT_BIT", "DQ_CLEAR_FCT_BIT"]
 
 
 class Parser:
@@ -223,9 +276,9 @@ class Parser:
         if tok == "=":
             self.eat()
             return ("assign", lhs, self.assign())
-        if tok in ("+=", "-=", "|=", "&=", "^="):
+        if tok in ("+=", "-=", "|=", "&=", "^=", "*=", "/=", "%=", "<<=", ">>="):
             self.eat()
-            return ("assign", lhs, ("bin", tok[0], lhs, self.assign()))
+            return ("assign", lhs, ("bin", tok[:-1], lhs, self.assign()))
         return lhs
 
     def cond(self):
@@ -281,6 +334,12 @@ class Parser:
         elif tok == "(":
             e = self.expr()
             self.eat(")")
+        elif tok.startswith('"'):
+            while (self.peek() or "").startswith('"'):
+                self.eat()
+            e = ("str",)
+        elif tok.startswith("'"):
+            e = ("num", ord(tok[1]) if len(tok) == 3 else 0)
         elif re.match(r"^(0[xX][0-9a-fA-F]+|\d+)[uUlL]*$", tok):
             e = ("num", int(re.sub(r"[uUlL]+$", "", tok), 0))
         elif re.match(r"^[A-Za-z_]\w*$", tok):
@@ -305,6 +364,16 @@ class Parser:
                     raise Unsupported("call through an expression")
                 self.eat()
                 name = e[1]
+                if name in ("min_t", "max_t"):
+                    while self.peek() != ",":
+                        self.eat()
+                    self.eat(",")
+                    a = self.assign()
+                    self.eat(",")
+                    b = self.assign()
+                    self.eat(")")
+                    e = ("ternary", ("bin", "<" if name == "min_t" else ">", a, b), a, b)
+                    continue
                 if name == "caa_container_of":
                     a = self.assign()
                     self.eat(",")
@@ -334,7 +403,10 @@ class Parser:
                 self.eat()
                 e = ("postinc", e, tok[0])
             elif tok == "[":
-                raise Unsupported("array subscript")
+                self.eat()
+                i = self.expr()
+                self.eat("]")
+                e = ("index", e, i)
             else:
                 return e
 
@@ -354,6 +426,21 @@ class Parser:
             prev = self.eat()
             if prev in ("struct", "union", "enum"):
                 self.eat()
+        if self.peek() == "(" and self.peek(1) == "*":
+            # function-pointer local: `ret (*name)(params);`
+            self.eat(); self.eat()
+            name = self.eat()
+            self.eat(")")
+            self.eat("(")
+            self.skip_type_in_parens()
+            self.tr.locals.add(name)
+            if self.peek() == "=":
+                self.eat()
+                e = self.assign()
+                self.eat(";")
+                return ("block", [("expr", ("assign", ("id", name), e))])
+            self.eat(";")
+            return ("block", [("declonly", name)])
         out = []
         tystart = getattr(self, "_tystart", self.i)
         tytxt = " ".join(x for x in self.t[tystart:self.i] if x not in ("const", "volatile", "static", "register"))
@@ -365,7 +452,21 @@ class Parser:
             if not re.match(r"^[A-Za-z_]\w*$", name):
                 raise Unsupported("declarator %r" % name)
             self.tr.locals.add(name)
-            if self.peek() == "=":
+            if self.peek() == "=" and self.peek(1) == "{":
+                self.eat(); self.eat()
+                fields = []
+                while self.peek() != "}":
+                    if self.peek() == "#":
+                        raise Unsupported("preprocessor line inside an initializer")
+                    self.eat(".")
+                    f = self.eat()
+                    self.eat("=")
+                    fields.append((f, self.assign()))
+                    if self.peek() == ",":
+                        self.eat()
+                self.eat("}")
+                out.append(("structinit", name, fields))
+            elif self.peek() == "=":
                 self.eat()
                 out.append(("expr", ("assign", ("id", name), self.assign())))
             else:
@@ -554,7 +655,8 @@ def strip_conditionals(text, defines, consts=None):
 
 
 # callees deliberately kept opaque (list traversals …): their result comes from the oracle, event `ext name`
-OPAQUE = {"rcu_defer_num_callbacks", "mutex_lock", "mutex_unlock", "mutex_lock_defer", "get_call_rcu_data", "membarrier"}
+OPAQUE = {"bit_reverse_ulong", "cds_lfht_fls_ulong", "cds_lfht_get_count_order_ulong", "cds_lfht_get_count_order_u32",
+          "rcu_defer_num_callbacks", "mutex_lock", "mutex_unlock", "mutex_lock_defer", "get_call_rcu_data", "membarrier"}
 # public names that, under _LGPL_SOURCE (how src/*.c is compiled), are macros for the static-inline implementation
 ALIASES_STATIC = {"rcu_read_lock": "_rcu_read_lock", "rcu_read_unlock": "_rcu_read_unlock"}
 ALIASES = dict(ALIASES_STATIC)
@@ -594,12 +696,16 @@ class Translator:
         self.need_consts = set()
         self.zero_offsets = set()
         self.cexprs = {}
+        self.define_files = set()
         self.local_consts = {}
         self.ltypes = {}
         self.api = api_defaults()
         self.memlocals = set()
         self.goto_labels = set()
         self.loop_depth = 0
+        self.loop_labels = []
+        self.cur_file = None
+        self.cur_params = []
         self.locals = set()
         self.tmpn = 0
         self.inprogress = []
@@ -621,6 +727,9 @@ class Translator:
         if r is None:
             return False
         f, (ptxt, body) = r
+        saved_file = self.cur_file
+        self.cur_file = f
+        saved_params = getattr(self, "cur_params", [])
         if "#" in body:
             raise Unsupported("%s: preprocessor conditional inside the body" % name)
         params = []
@@ -641,12 +750,17 @@ class Translator:
                 params.append(ids[-1])
                 self.ltypes[ids[-1]] = " ".join(x for x in ids[:-1] if x not in ("const", "volatile"))
         saved = (self.locals, self.tmpn, self.memlocals)
+        self.cur_params = list(params)
         self.locals, self.tmpn, self.memlocals = set(params), 0, set()
         self.inprogress.append(name)
         saved_g = (self.goto_labels, self.loop_depth)
         self.goto_labels, self.loop_depth = set(), 0
         try:
-            ast = Parser(tokenize(body), self).block()
+            toks = tokenize(body)
+            mac = file_macros(self.texts[f], EXPAND)
+            if mac:
+                toks = expand_macros(toks, mac)
+            ast = Parser(toks, self).block()
             self.memlocals = (set(address_taken(ast)) | set(declmacro_names(ast))) & self.locals
             if self.memlocals & set(params):
                 raise Unsupported("address of a parameter")
@@ -660,6 +774,8 @@ class Translator:
             raise Unsupported("%s (%s): %s" % (name, f, e))
         finally:
             self.inprogress.pop()
+            self.cur_file = saved_file
+            self.cur_params = saved_params
             self.goto_labels, self.loop_depth = saved_g
             self.locals, self.tmpn, self.memlocals = saved
         self.defs[name] = (params, stmts, f)
@@ -697,6 +813,16 @@ class Translator:
             return p, ".fieldAddr (%s) %s" % (b, lstr(e[2]))
         if k == "un" and e[1] == "*":
             return self.rv(e[2])
+        if k == "index":
+            # element i of an array object / pointer: `&a[i]`
+            if e[1][0] == "id" and e[1][1] not in self.locals:
+                pb, b = [], ".addrGlob %s" % lstr(e[1][1])
+            elif e[1][0] == "member" and not (e[1][1][0] == "id" and False):
+                pb, b = self.addr(e[1])            # array member: its address is the base
+            else:
+                pb, b = self.rv(e[1])
+            pi, i = self.rv(e[2])
+            return pb + pi, ".index (%s) (%s)" % (b, i)
         raise Unsupported("not an lvalue: %r" % (e,))
 
     def rv(self, e):
@@ -720,12 +846,16 @@ class Translator:
                 return [], ".lit %d" % (1 if n == "true" else 0)
             if re.match(r"^[A-Z][A-Z0-9_]*$", n):
                 key = n
-                for f in self.own_files:
+                for f in list(self.own_files) + ([self.cur_file] if self.cur_file and self.cur_file.startswith("src/") else []):
                     m = re.search(r"^[ \t]*#[ \t]*define[ \t]+%s[ \t]+(.+)$" % re.escape(n), self.texts[f], re.M)
                     if m:
-                        key = self.prefix + n           # a constant local to this unit's .c file: its #define text is copied
+                        # a constant local to a .c / private header: its #define text is copied into the constants program
+                        key = (self.prefix + n) if f in self.own_files else n
                         self.local_consts[key] = m.group(1).strip()
-                if key == n:
+                        if f not in self.own_files:
+                            self.define_files.add(f)
+                        break
+                if key not in self.local_consts:
                     self.need_consts.add(n)
                 v = self.consts.get(key)
                 return [], ".cst %s (%s)" % (lstr(key), v if v is not None else "0")
@@ -736,6 +866,11 @@ class Translator:
             # transparent unions handed by value: `u_stack._s` of a local is the pointer itself
             if not e[3] and e[1][0] == "id" and e[1][1] in self.locals and e[2].startswith("_"):
                 return [], ".var %s" % lstr(e[1][1])
+            p, a = self.addr(e)
+            return p, ".pload (%s)" % a
+        if k == "str":
+            return [], ".lit 0"          # a string literal (only ever an argument of diagnostics): no value in the IR
+        if k == "index":
             p, a = self.addr(e)
             return p, ".pload (%s)" % a
         if k == "ternary":
@@ -759,6 +894,14 @@ class Translator:
             if e[1] == "*":
                 p, a = self.rv(e[2])
                 return p, ".pload (%s)" % a
+            if e[1] == "~" and e[2][0] == "id" and re.match(r"^[A-Z][A-Z0-9_]*$", e[2][1]):
+                if self.cur_file and self.cur_file.startswith("src/") and self.cur_file not in self.own_files:
+                    self.define_files.add(self.cur_file)
+                # complement of a named constant: evaluated by the C compiler as an unsigned long
+                key = "NOT_" + e[2][1]
+                self.cexprs[key] = "~(unsigned long)(%s)" % e[2][1]
+                v = self.consts.get(key)
+                return [], ".cst %s (%s)" % (lstr(key), v if v is not None else "0")
             p, a = self.rv(e[2])
             op = {"!": "lnot", "~": "bnot", "-": "neg"}[e[1]]
             if e[1] == "-" and e[2][0] == "num":
@@ -801,7 +944,12 @@ class Translator:
                 op = "add" if e[2] == "+" else "sub"
                 return [".assign %s (.var %s)" % (lstr(t), lstr(lhs[1])),
                         ".assign %s (.bin .%s (.var %s) (.lit 1))" % (lstr(lhs[1]), op, lstr(lhs[1]))], ".var %s" % lstr(t)
-            raise Unsupported("post-increment of a non-local")
+            pa, a = self.addr(lhs)
+            t = self.tmp()
+            self.locals.add(t)
+            op = "add" if e[2] == "+" else "sub"
+            return pa + [".assign %s (.pload (%s))" % (lstr(t), a),
+                         ".pstore (%s) (.bin .%s (.var %s) (.lit 1))" % (a, op, lstr(t))], ".var %s" % lstr(t)
         if k == "call":
             return self.call(e, want_value=True)
         raise Unsupported("expression %r" % (e,))
@@ -816,6 +964,14 @@ class Translator:
 
     def call(self, e, want_value):
         name, args = ALIASES.get(e[1], e[1]), e[2]
+        if name in self.locals and name not in self.cur_params:
+            # call through a function-pointer local: an external call whose first argument is the function value
+            pre, a = self.args([("id", name)] + list(args))
+            if want_value:
+                t = self.tmp()
+                self.locals.add(t)
+                return pre + [".prim (some %s) (.ext \"(*)\") %s" % (lstr(t), a)], ".var %s" % lstr(t)
+            return pre + [".prim none (.ext \"(*)\") %s" % a], None
         if name in IDENTITY_CALLS:
             return self.rv(args[0])
         if name in IGNORED_CALLS:
@@ -940,13 +1096,21 @@ class Translator:
                 while j < len(stmts) and not (stmts[j][0] == "label" and stmts[j][1] in pending):
                     j += 1
                 guarded = stmts[i:j]
-                flags = sorted(pending)
-                cond = ".var %s" % lstr("_goto_" + flags[0])
-                for f in flags[1:]:
-                    cond = ".bin .lor (%s) (.var %s)" % (cond, lstr("_goto_" + f))
-                inner = self.stmt_list(list(guarded))
-                esc = ".brk" if self.loop_depth > 0 else ".skip"
-                out.append(".ifte (%s) (%s) (%s)" % (cond, esc, self.blk(inner)))
+                later = set(y[1] for y in stmts[j:] if y[0] == "label")
+                inside = sorted(f for f in pending if f in later)        # label further down in this block: skip to it
+                outside = sorted(f for f in pending if f not in later)   # label in an enclosing block: leave this block
+
+                def disj(flags):
+                    c = ".var %s" % lstr("_goto_" + flags[0])
+                    for f in flags[1:]:
+                        c = ".bin .lor (%s) (.var %s)" % (c, lstr("_goto_" + f))
+                    return c
+                inner = self.blk(self.stmt_list(list(guarded)))
+                if inside:
+                    inner = ".ifte (%s) (.skip) (%s)" % (disj(inside), inner)
+                if outside:
+                    inner = ".ifte (%s) (%s) (%s)" % (disj(outside), ".brk" if self.loop_depth > 0 else ".skip", inner)
+                out.append(inner)
                 for y in guarded:
                     pending |= (gotos_in(y) - labels_in(y))
                 # labels inside the guarded region were consumed there
@@ -969,6 +1133,12 @@ class Translator:
             return []
         if k == "label":
             return []
+        if k == "structinit":
+            out = []
+            for f, e in s[2]:
+                p, v = self.rv(e)
+                out += p + [".pstore (.fieldAddr (.addrGlob %s) %s) (%s)" % (lstr("&" + s[1]), lstr(f), v)]
+            return out
         if k == "declmacro":
             if s[1] == "DEFINE_URCU_WAIT_NODE" and s[3]:
                 p, v = self.rv(s[3][0])
@@ -1011,7 +1181,10 @@ class Translator:
             return pre + first_stmts + [".loop (%s)" % self.blk(head + body)]
         if k == "goto":
             self.goto_labels.add(s[1])
-            return [".assign %s (.lit 1)" % lstr("_goto_" + s[1])] + ([".brk"] if self.loop_depth > 0 else [])
+            # inside a loop whose body does not hold the label: leave the loop; otherwise the enclosing blocks' guards skip
+            # forward to the label
+            leave = self.loop_depth > 0 and not (self.loop_labels and s[1] in self.loop_labels[-1])
+            return [".assign %s (.lit 1)" % lstr("_goto_" + s[1])] + ([".brk"] if leave else [])
         if k == "switch":
             p, v = self.rv(s[1])
             t = self.tmp()
@@ -1092,17 +1265,21 @@ class Translator:
             return p + [".ifte (%s) (%s) (%s)" % (c, self.blk(self.stmt(s[2])), self.blk(self.stmt(s[3])))]
         if k == "loop":
             self.loop_depth += 1
+            self.loop_labels.append(labels_in(s[1]))
             try:
                 return [".loop (%s)" % self.blk(self.stmt(s[1]))]
             finally:
                 self.loop_depth -= 1
+                self.loop_labels.pop()
         if k == "while":
             p, c = self.rv(s[1])
             self.loop_depth += 1
+            self.loop_labels.append(labels_in(s[2]))
             try:
                 body = self.stmt(s[2])
             finally:
                 self.loop_depth -= 1
+                self.loop_labels.pop()
             return [".loop (%s)" % self.blk(p + [".ifte (%s) (%s) (.brk)" % (c, self.blk(body))])]
         if k == "dowhile":
             self.loop_depth += 1
@@ -1199,6 +1376,8 @@ def declmacro_names(t):
     out = []
     if isinstance(t, tuple) and t and t[0] == "declmacro":
         out.append(t[2])
+    if isinstance(t, tuple) and t and t[0] == "structinit":
+        out.append(t[1])
     if isinstance(t, (tuple, list)):
         for x in t:
             if isinstance(x, (tuple, list)):
@@ -1222,6 +1401,7 @@ UNITS = [
       ("wake_call_rcu_thread", "src/urcu-call-rcu-impl.h"), ("_call_rcu", "src/urcu-call-rcu-impl.h"),
       ("futex_wait", "src/workqueue.c"), ("futex_wake_up", "src/workqueue.c"), ("wake_worker_thread", "src/workqueue.c"),
       ("wake_up_defer", "src/urcu-defer-impl.h"), ("wait_defer", "src/urcu-defer-impl.h"),
+      ("_defer_rcu", "src/urcu-defer-impl.h"), ("rcu_defer_barrier_queue", "src/urcu-defer-impl.h"),
       ("urcu_wake_all_waiters", "src/urcu-wait.h")]),
     ("memb.", ("RCU_MEMBARRIER",), ("src/urcu.c",), ["src/urcu.c", "src/urcu-wait.h"],
      [("smp_mb_master", "src/urcu.c"), ("wait_gp", "src/urcu.c"), ("wait_for_readers", "src/urcu.c"), ("synchronize_rcu", "src/urcu.c")]),
@@ -1262,19 +1442,30 @@ def main():
              "#include <urcu/urcu-memb.h>", "#include <urcu/urcu-bp.h>", "#include <urcu/urcu-qsbr.h>", "#include <urcu/wfstack.h>",
              "#include <urcu/lfstack.h>", "#include <urcu/wfcqueue.h>", "#include <urcu/rculfqueue.h>", "#include <urcu/call-rcu.h>",
              "#include <urcu/workqueue.h>" if os.path.exists(os.path.join(REPO, "include/urcu/workqueue.h")) else "",
-             '#include "urcu-wait.h"', '#include "workqueue.h"', "int main(void) {"]
+             '#include "urcu-wait.h"', '#include "workqueue.h"']
+        # object-like #defines of the private headers a translated function's constants come from, copied textually
+        for f in sorted(set(x for tr in trs for x in tr.define_files)):
+            for m in re.finditer(r"^[ \t]*#[ \t]*define[ \t]+([A-Z][A-Z0-9_]*)[ \t]+(.+)$", trs[0].texts.get(f) or strip_comments(open(os.path.join(REPO, f)).read()), re.M):
+                c.append("#ifndef %s\n#define %s %s\n#endif" % (m.group(1), m.group(1), m.group(2).strip()))
+        c.append("int main(void) {")
         need, cex, zero = set(), {}, set()
         for tr in trs:
             need |= tr.need_consts
             cex.update(tr.cexprs)
             zero |= tr.zero_offsets
+        def pr(n, txt):
+            # pointer-valued constants other than the (T *) -1 sentinels, and complements, are printed unsigned
+            if n.startswith("NOT_"):
+                return 'printf("%s %%lu\\n", (unsigned long)(%s));' % (n, txt)
+            return ('if (__builtin_classify_type(%s) == 5 && (long)(%s) != -1) printf("%s %%lu\\n", (unsigned long)(%s)); '
+                    'else printf("%s %%ld\\n", (long)(%s));' % (txt, txt, n, txt, n, txt))
         for n in sorted(need):
-            c.append('printf("%s %%ld\\n", (long)(%s));' % (n, n))
+            c.append(pr(n, n))
         for n, txt in sorted(cex.items()):
-            c.append('printf("%s %%ld\\n", (long)(%s));' % (n, txt))
+            c.append(pr(n, txt))
         for tr in trs:
             for n, txt in sorted(tr.local_consts.items()):
-                c.append('printf("%s %%ld\\n", (long)(%s));' % (n, txt))
+                c.append(pr(n, txt))
         for ty, mem in sorted(zero):
             c.append("_Static_assert(offsetof(%s, %s) == 0, \"caa_container_of(%s,%s) is not the identity\");" % (ty, mem, ty, mem))
         # file-level preprocessor conditions that are not plain defined()-tests: evaluated here, used by pass 2
